@@ -457,6 +457,9 @@ static int ns_boot(const ns_cfg *cfg, int64_t hs_deadline)
 	ns_srv_tun = vw_tun_open(0, NS_SRV_TUN);
 	ns_cli_sock[1] = vw_sock_open(1, NS_CLI_FD, "198.51.100.7", 40000);
 	ns_cli_tun[1] = vw_tun_open(1, NS_CLI_TUN);
+	/* succession: the relay of the configuration is the second client's path; the first client reaches the server directly */
+	ns_relay late_relay = NC.relay;
+	if (NC.succession) memset(&NC.relay, 0, sizeof NC.relay);
 	vw_spawn(0, ns_server_main, NULL);
 	vw_spawn(1, ns_client_a_main, NULL);
 	while (ns_hs_result[1] == -99 && W.now < hs_deadline && vw_alive(1) && vw_step()) ;
@@ -475,6 +478,7 @@ static int ns_boot(const ns_cfg *cfg, int64_t hs_deadline)
 		while (vw_next_time() != VW_NEVER && vw_next_time() <= until && vw_step()) ;
 		if (W.now < until) vw_run_until(until);
 		ns_nrd = ns_nwr = 0;          /* A's packets are history: the monitors judge the second session */
+		NC.relay = late_relay;
 	}
 	if (NC.nclients > 1) {
 		ns_cli_sock[2] = vw_sock_open(2, NS_CLI_FD + 10, "198.51.100.8", 40001);
